@@ -1630,3 +1630,56 @@ def c04_e(ctx):
                 yield ok("C04-E", key, at(f), {"own_error_kinds": sorted(got)})
     if n == 0:
         raise Anchor("C04-E", "TransactionError constructions reachable from the transactions' entry points")
+
+
+# ================================================================ C19-R: nothing is skipped because of a suspension
+@rule("C19", "C19-R", 2, "what a received PDU makes the transaction do does not depend on whether it is suspended: no decision in the PDU-processing path reads the suspension state (resume re-arms timers and the NAK list only; a step skipped while suspended - the completeness check, the delivery - would never be made up)")
+def c19_r(ctx):
+    n = 0
+    for adt in (RECV, SEND):
+        nm = adt.split("::")[-1]
+        root = ctx.one("C19-R", nm + "::process_pdu")
+        seen_fns = 0
+        hits = []
+        for g in sorted(ctx.prog.reach([root])):
+            f = ctx.prog.by_norm[g]
+            if not (f.norm.startswith(adt) or (f.root or "").startswith(adt)):
+                continue
+            seen_fns += 1
+            eb = ExprBuilder(ctx.prog, f)
+            for b in f.live_blocks():
+                t = f.blocks[b]["term"]
+                if t["k"] != "switch":
+                    continue
+                e = eb.operand(t["discr"])
+                if any(p == "self.state" or p.startswith("self.state.") for p in places_in(e)):
+                    # what differs between the outcomes: only (re)arming timers may depend on the suspension
+                    # (that is what C19-B asks for); anything else is a skipped step
+                    succ = [x for x, _l in f.succs(b)]
+                    reach = [f.reachable(x) for x in succ]
+                    excl = set()
+                    for i_, r_ in enumerate(reach):
+                        others = set().union(*[reach[j_] for j_ in range(len(reach)) if j_ != i_]) if len(reach) > 1 else set()
+                        excl |= r_ - others
+                    other_effects = []
+                    for x in sorted(excl):
+                        for st in f.blocks[x]["stmts"]:
+                            if st["k"] == "assign" and f.place_str(st["place"]).startswith("self.") and not f.place_str(st["place"]).startswith("self.timer"):
+                                other_effects.append("write " + f.place_str(st["place"]))
+                        tt = f.blocks[x]["term"]
+                        if tt["k"] == "call":
+                            d_, r_, _i = ctx.prog.callee_of(tt)
+                            cal = r_ or d_ or ""
+                            if cal.startswith(adt + "::") or cal.startswith("cfdp_core::filestore"):
+                                other_effects.append("call " + cal.split("::")[-1])
+                    if other_effects:
+                        hits.append((f, t["span"]["line"], expr_str(e)[:100] + " guarding " + ", ".join(sorted(set(other_effects))[:4])))
+        n += 1
+        key = "%s::process_pdu:decisions-on-suspension" % nm
+        if hits:
+            for i, (f, line, txt) in enumerate(hits):
+                yield bad("C19-R", key + ("#%d" % (i + 1) if i else ""), at(f, line), "%s decides on the suspension state (%s) while processing a received PDU: what it skips for a suspended transaction is not made up on resume, so a transfer whose decisive PDU arrives during the suspension never completes" % (f.name, txt))
+        else:
+            yield ok("C19-R", key, at(root), {"functions_searched": seen_fns, "decisions_reading_self.state": 0})
+    if n == 0:
+        raise Anchor("C19-R", "process_pdu of the transactions")
